@@ -383,24 +383,6 @@ theorem never_facts_admin (s : Sess) (ad : Bool) :
 
 /-! ## one step of simulation -/
 
-theorem evWF_of_wf {g : G} {r : R} (hr : Rel g r) {ev : Ev} (h : wf r ev = true) : EvWF g ev := by
-  cases ev with
-  | est fams gr llgr lr =>
-      simp only [wf, Bool.or_eq_true, Bool.and_eq_true] at h
-      rcases h with h | ⟨h1, h2⟩
-      · left; rw [← hr.up]; exact h
-      · right
-        refine ⟨fun n hn => ?_, fun l hl => ?_⟩
-        · simp only at hn; subst hn
-          simp only [Bool.and_eq_true, Bool.not_eq_eq_eq_not, Bool.not_true, List.all_eq_true, List.contains_eq_mem,
-            decide_eq_true_eq] at h1
-          exact ⟨fun he => by simp [he] at h1, h1.2⟩
-        · simp only at hl; subst hl
-          simp only [Bool.and_eq_true, Bool.not_eq_eq_eq_not, Bool.not_true, List.all_eq_true, List.contains_eq_mem,
-            decide_eq_true_eq] at h2
-          exact ⟨fun he => by simp [he] at h2, h2.2⟩
-  | _ => trivial
-
 /-- a step that leaves the model state untouched -/
 theorem stutter {g : G} {r : R} (hr : Rel g r) :
     (if !invI r.up r.awaiting (observe g) then (Except.error "stale-without-pending" : Except String R)
@@ -437,42 +419,8 @@ theorem sessionDown_fields {g : G} (h : Inv g) (reason : Reason) :
           | some lp => rw [sessionDown_llgr h hs reason lp h1 h2]; exact ⟨rfl, rfl⟩
 
 theorem forceDown_fields {g : G} (h : Inv g) :
-    (forceDown g).adminDown = g.adminDown ∧ (forceDown g).sess = none := by
-  by_cases ht : g.grTimer = true
-  · obtain ⟨S, L, hgs⟩ := h.timerGr.mp ht
-    have hlt := llgrTimers_nil_of h (by simp [hgs])
-    obtain ⟨_, _, hsn, had, _⟩ := inv_grExpired h ht
-    rw [forceDown_armed g ht hlt]
-    have : sessionDown (grTimerExpired { g with grTimer := false }) .admin = grTimerExpired { g with grTimer := false } := by
-      simp [sessionDown, hsn]
-    rw [this]; exact ⟨had, hsn⟩
-  · have htf : g.grTimer = false := by simpa using ht
-    cases hgs : g.gs with
-    | llgrStaling rem =>
-        have hsn := sess_none_of_ls h hgs
-        have hc := h.cover
-        unfold Cover at hc
-        rw [hgs] at hc
-        have hd : Draining ({ g with llgrTimers := [] } : G) rem := ⟨hsn, htf, rfl, Or.inl hgs, hc.1, hc.2⟩
-        obtain ⟨hd', had⟩ := draining_fold hd (sortNat g.llgrTimers)
-        rw [forceDown_llgr g htf]
-        have hsd : sessionDown ((sortNat g.llgrTimers).foldl llgrTimerExpired { g with llgrTimers := [] }) .admin =
-            (sortNat g.llgrTimers).foldl llgrTimerExpired { g with llgrTimers := [] } := by
-          simp [sessionDown, hd'.sess]
-        rw [hsd]; exact ⟨had, hd'.sess⟩
-    | idle =>
-        have hlt := llgrTimers_nil_of h (by simp [hgs])
-        rw [forceDown_quiet g htf hlt]
-        rcases sessionDown_fields h .admin with h1 | ⟨h1, h2⟩
-        · exact h1
-        · rw [h2]; exact ⟨rfl, h1⟩
-    | peerReconnected P fl =>
-        have hlt := llgrTimers_nil_of h (by simp [hgs])
-        rw [forceDown_quiet g htf hlt]
-        rcases sessionDown_fields h .admin with h1 | ⟨h1, h2⟩
-        · exact h1
-        · rw [h2]; exact ⟨rfl, h1⟩
-    | peerRestarting S L => exact absurd (h.timerGr.mpr ⟨S, L, hgs⟩) ht
+    (forceDown g).adminDown = g.adminDown ∧ (forceDown g).sess = none :=
+  ⟨(inv_forceDown' h).2.2.2.1, (inv_forceDown' h).2.2.1⟩
 
 theorem fireGr_fields {g : G} (h : Inv g) :
     (fireGr g).adminDown = g.adminDown ∧ (fireGr g).sess = g.sess ∧ (g.sess.isSome = true → fireGr g = g) := by
@@ -517,7 +465,15 @@ theorem commonE_ok {g g' : G} {r r' : R} (hprev : r.prev = observe g) (hi : Inv 
 theorem commonE_stutter {g : G} {r : R} (hr : Rel g r) : commonE r r (observe g) = .ok r := stutter hr
 
 def rEst (r : R) (fams : List Fam) (gr : Option NegGr) (llgr : Option (List Fam)) : R :=
-  { r with up := true, fams := fams, gr := gr, llgr := llgr, awaiting := (gr.map (·.fams)).getD [], announced := [] }
+  { r with up := true, fams := sessFams fams, gr := negGr fams gr, llgr := negLlgr fams llgr,
+           awaiting := ((negGr fams gr).map (·.fams)).getD [], announced := [] }
+
+theorem negotiate_eq (fams : List Fam) (gr : Option NegGr) (llgr : Option (List Fam)) :
+    (negotiate fams gr llgr).fams = sessFams fams ∧ (negotiate fams gr llgr).gr = negGr fams gr ∧
+    (negotiate fams gr llgr).llgr = negLlgr fams llgr := by
+  refine ⟨rfl, ?_, ?_⟩
+  · cases gr <;> rfl
+  · cases llgr <;> rfl
 def rAnn (r : R) (f : Fam) (n : Nat) : R := { r with announced := (f, n) :: r.announced.filter (· ≠ (f, n)) }
 def rEor (r : R) (f : Fam) : R := { r with awaiting := r.awaiting.filter (· ≠ f) }
 
@@ -552,19 +508,69 @@ theorem stepOk_llgrTimer (r : R) (f : Fam) (cur : Obs) :
       if r.up && !announcedKept r.announced cur then .error "purge-removed-fresh" else commonE r r cur := rfl
 theorem stepOk_force (r : R) (cur : Obs) :
     stepOk r .force cur =
-      if !r.up then commonE r r cur
+      if forcedKeeps cur then .error "forced-down-keeps-helper"
+      else if !r.up then commonE r r cur
       else match downOk r .never cur with
         | .error c => .error c
         | .ok _ => commonE r (sessionEnds r) cur := rfl
 theorem stepOk_disable (r : R) (cur : Obs) :
     stepOk r .disable cur =
       if r.adminDown then commonE r r cur
+      else if forcedKeeps cur then .error "forced-down-keeps-helper"
       else if !r.up then commonE r { r with adminDown := true } cur
       else match downOk r .never cur with
         | .error c => .error c
         | .ok _ => commonE r { sessionEnds r with adminDown := true } cur := rfl
+theorem stepOk_wait (r : R) (cur : Obs) :
+    stepOk r .wait cur =
+      if r.up && !announcedKept r.announced cur then .error "purge-removed-fresh" else commonE r r cur := rfl
 theorem stepOk_enable (r : R) (cur : Obs) :
     stepOk r .enable cur = commonE r { r with adminDown := false } cur := rfl
+
+/-- no session, no timer: nothing marked is left (clause `forced-down-keeps-helper`) -/
+theorem forcedKeeps_false {g : G} (hi : Inv g) (hs : g.sess = none) (hgt : g.grTimer = false)
+    (hlt : g.llgrTimers = []) : forcedKeeps (observe g) = false := by
+  have hno : ∀ x ∈ g.rib, marked x = false := by
+    intro x hx
+    cases hm : marked x with
+    | false => rfl
+    | true =>
+        rcases hi.pending x hx hm with h1 | h1 | ⟨h1, _⟩
+        · rw [hgt] at h1; cases h1
+        · rw [hlt] at h1; cases h1
+        · rw [hs] at h1; cases h1
+  have hr : (observe g).routes.any Spec.marked = false := by
+    simp only [observe_routes, List.any_map, List.any_eq_false, Function.comp]
+    intro x hx; rw [marked_obs, hno x hx]; simp
+  unfold forcedKeeps
+  rw [hr]
+  simp [observe, hgt, hlt]
+
+theorem fold_fireLlgr_id (g : G) (h : g.llgrTimers = []) (l : List Fam) : l.foldl fireLlgr g = g := by
+  induction l with
+  | nil => rfl
+  | cons f l ih =>
+      have : fireLlgr g f = g := by simp [fireLlgr, h]
+      simp only [List.foldl_cons, this, ih]
+
+theorem fold_fireLlgr_fields {g : G} (h : Inv g) (l : List Fam) :
+    Inv (l.foldl fireLlgr g) ∧ (l.foldl fireLlgr g).adminDown = g.adminDown ∧ (l.foldl fireLlgr g).sess = g.sess := by
+  induction l generalizing g with
+  | nil => exact ⟨h, rfl, rfl⟩
+  | cons f l ih =>
+      obtain ⟨a, b, c⟩ := ih (inv_fireLlgr h f).1
+      obtain ⟨d, e, _⟩ := fireLlgr_fields h f
+      exact ⟨a, b.trans d, c.trans e⟩
+
+theorem waitAll_fields {g : G} (h : Inv g) :
+    (waitAll g).adminDown = g.adminDown ∧ (waitAll g).sess = g.sess ∧ (g.sess.isSome = true → waitAll g = g) := by
+  obtain ⟨a, b, c⟩ := fireGr_fields h
+  obtain ⟨_, d, e⟩ := fold_fireLlgr_fields (inv_fireGr h).1 (sortNat g.llgrTimers)
+  refine ⟨d.trans a, e.trans b, fun hs => ?_⟩
+  unfold waitAll
+  rw [c hs]
+  obtain ⟨s, hss⟩ := Option.isSome_iff_exists.mp hs
+  exact fold_fireLlgr_id g (h.live s hss).2.2.1 _
 
 theorem up_false_iff {g : G} {r : R} (hr : Rel g r) : r.up = false ↔ g.sess = none := by
   rw [hr.up]; cases g.sess <;> simp
@@ -578,11 +584,10 @@ theorem rel_down {g' : G} {r' : R} (hi : Inv g') (hsn : g'.sess = none) (hup : r
   ⟨hi, (by rw [hsn]; exact hup), fun s hs => (by rw [hsn] at hs; cases hs), had, rfl, aw_vacuous hi hsn _,
    fun h => (by rw [hsn] at h; cases h)⟩
 
-/-- One in-domain step of the model is accepted by the reference checker and keeps the relation. -/
-theorem step_sim {g : G} {r : R} (hr : Rel g r) (ev : Ev) (hwf : wf r ev = true) :
+/-- One step of the model (any event) is accepted by the reference checker and keeps the relation. -/
+theorem step_sim {g : G} {r : R} (hr : Rel g r) (ev : Ev) :
     ∃ r', stepOk r ev (observe (step g ev)) = .ok r' ∧ Rel (step g ev) r' := by
-  have hevwf := evWF_of_wf hr hwf
-  obtain ⟨hinv', hnl'⟩ := step_inv hr.inv ev hevwf
+  obtain ⟨hinv', hnl'⟩ := step_inv hr.inv ev
   cases ev with
   | est fams gr llgr lr =>
       cases hs : g.sess with
@@ -593,12 +598,15 @@ theorem step_sim {g : G} {r : R} (hr : Rel g r) (ev : Ev) (hwf : wf r ev = true)
       | none =>
           have hup : r.up = false := (up_false_iff hr).mpr hs
           have hst : step g (.est fams gr llgr lr) =
-              onEstablished { g with sess := some { fams := fams, gr := gr, llgr := llgr } } ((gr.map (·.fams)).getD []) lr := by
+              onEstablished { g with sess := some (negotiate fams gr llgr) }
+                (((negotiate fams gr llgr).gr.map (·.fams)).getD []) lr := by
             simp [step, hs]
           rw [hst] at hinv' hnl' ⊢
-          have hf := onEst_fields { g with sess := some { fams := fams, gr := gr, llgr := llgr } } ((gr.map (·.fams)).getD []) lr
-          generalize onEstablished { g with sess := some { fams := fams, gr := gr, llgr := llgr } }
-            ((gr.map (·.fams)).getD []) lr = g' at hinv' hnl' hf ⊢
+          obtain ⟨hn1, hn2, hn3⟩ := negotiate_eq fams gr llgr
+          have hf := onEst_fields { g with sess := some (negotiate fams gr llgr) }
+            (((negotiate fams gr llgr).gr.map (·.fams)).getD []) lr
+          generalize onEstablished { g with sess := some (negotiate fams gr llgr) }
+            (((negotiate fams gr llgr).gr.map (·.fams)).getD []) lr = g' at hinv' hnl' hf ⊢
           simp only at hf
           have haw : ∀ P fl, g'.gs = .peerReconnected P fl → ∀ x ∈ g'.rib, marked x = true →
               x.fam ∈ (rEst r fams gr llgr).awaiting := by
@@ -609,11 +617,12 @@ theorem step_sim {g : G} {r : R} (hr : Rel g r) (ev : Ev) (hwf : wf r ev = true)
             obtain ⟨_, _, s', n, hs', hn, hfn⟩ := hc x hx hm
             rw [hf.1] at hs'
             cases hs'
-            simp only at hn
+            rw [hn2] at hn
             simp [rEst, hn, hfn]
           rw [stepOk_est, if_neg (by simp [hup])]
           refine ⟨_, commonE_ok hr.prev hinv' hnl' (by simp [rEst, hf.1]) haw, ?_⟩
-          exact ⟨hinv', (by simp [rEst, hf.1]), fun s' hs' => (by rw [hf.1] at hs'; cases hs'; exact ⟨rfl, rfl, rfl⟩),
+          exact ⟨hinv', (by simp [rEst, hf.1]),
+            fun s' hs' => (by rw [hf.1] at hs'; cases hs'; exact ⟨hn1.symm, hn2.symm, hn3.symm⟩),
             (by simp [rEst, hf.2, hr.ad]), rfl, haw, fun _ a ha => (by simp [rEst] at ha)⟩
   | ann f n nl lc =>
       rw [stepOk_ann]
@@ -816,27 +825,26 @@ theorem step_sim {g : G} {r : R} (hr : Rel g r) (ev : Ev) (hwf : wf r ev = true)
         refine ⟨_, commonE_ok hr.prev hinv' hnl' (by rw [hsn']; exact hup') (aw_vacuous hinv' hsn' _), ?_⟩
         exact rel_down hinv' hsn' hup' (by rw [had]; exact hr.ad)
   | force =>
-      obtain ⟨had, hsn'⟩ := forceDown_fields hr.inv
+      obtain ⟨_, _, hsn', had, hgf, hlf⟩ := inv_forceDown' hr.inv
       have hst : step g .force = forceDown g := rfl
       rw [hst] at hinv' hnl' ⊢
-      rw [stepOk_force]
-      cases hs : g.sess with
-      | none =>
-          have hup : r.up = false := (up_false_iff hr).mpr hs
-          rw [if_pos (by simp [hup])]
-          refine ⟨_, commonE_ok hr.prev hinv' hnl' (by rw [hsn']; exact hup) (aw_vacuous hinv' hsn' _), ?_⟩
-          exact rel_down hinv' hsn' hup (by rw [had]; exact hr.ad)
-      | some s =>
-          have hup : r.up = true := up_true_of hr hs
-          obtain ⟨_, hgt, hlt, _⟩ := hr.inv.live s hs
-          have hfd : forceDown g = sessionDown g .admin := forceDown_quiet g hgt hlt
-          obtain ⟨F1a, F1b⟩ := never_facts_admin s g.adminDown
-          have hd := downOk_ok hr hs .admin .never (fun _ => ⟨F1a, F1b⟩) (fun h => by cases h) (fun h => by cases h)
-          rw [← hfd] at hd
-          rw [if_neg (by simp [hup]), hd]
-          simp only
-          refine ⟨_, commonE_ok hr.prev hinv' hnl' (by simp [sessionEnds, hsn']) (aw_vacuous hinv' hsn' _), ?_⟩
-          exact rel_down hinv' hsn' (by simp [sessionEnds]) (by simp [sessionEnds, hr.ad, had])
+      rw [stepOk_force, forcedKeeps_false hinv' hsn' hgf hlf]
+      simp only [Bool.false_eq_true, ↓reduceIte]
+      rcases Option.eq_none_or_eq_some g.sess with hs | ⟨s, hs⟩
+      · have hup : r.up = false := (up_false_iff hr).mpr hs
+        rw [if_pos (by simp [hup])]
+        refine ⟨_, commonE_ok hr.prev hinv' hnl' (by rw [hsn']; exact hup) (aw_vacuous hinv' hsn' _), ?_⟩
+        exact rel_down hinv' hsn' hup (by rw [had]; exact hr.ad)
+      · have hup : r.up = true := up_true_of hr hs
+        obtain ⟨_, hgt, hlt, _⟩ := hr.inv.live s hs
+        have hfd : forceDown g = sessionDown g .admin := forceDown_quiet g hgt hlt
+        obtain ⟨F1a, F1b⟩ := never_facts_admin s g.adminDown
+        have hd := downOk_ok hr hs .admin .never (fun _ => ⟨F1a, F1b⟩) (fun h => by cases h) (fun h => by cases h)
+        rw [← hfd] at hd
+        rw [if_neg (by simp [hup]), hd]
+        simp only
+        refine ⟨_, commonE_ok hr.prev hinv' hnl' (by simp [sessionEnds, hsn']) (aw_vacuous hinv' hsn' _), ?_⟩
+        exact rel_down hinv' hsn' (by simp [sessionEnds]) (by simp [sessionEnds, hr.ad, had])
   | disable =>
       rw [stepOk_disable]
       by_cases ha : g.adminDown = true
@@ -849,9 +857,10 @@ theorem step_sim {g : G} {r : R} (hr : Rel g r) (ev : Ev) (hwf : wf r ev = true)
         have hst : step g .disable = forceDown { g with adminDown := true } := by simp [step, haf]
         rw [hst] at hinv' hnl' ⊢
         have hi2 : Inv { g with adminDown := true } := inv_adminDown hr.inv true
-        obtain ⟨had, hsn'⟩ := forceDown_fields hi2
+        obtain ⟨_, _, hsn', had, hgf, hlf⟩ := inv_forceDown' hi2
         have hnl2 : NoLlgrOk g (forceDown { g with adminDown := true }) := hnl'
-        rw [if_neg (by simp [hra])]
+        rw [if_neg (by simp [hra]), forcedKeeps_false hinv' hsn' hgf hlf]
+        simp only [Bool.false_eq_true, ↓reduceIte]
         rcases Option.eq_none_or_eq_some g.sess with hs | ⟨s, hs⟩
         · have hup : r.up = false := (up_false_iff hr).mpr hs
           rw [if_pos (by simp [hup])]
@@ -880,6 +889,23 @@ theorem step_sim {g : G} {r : R} (hr : Rel g r) (ev : Ev) (hwf : wf r ev = true)
       rw [stepOk_enable]
       refine ⟨_, commonE_ok (r' := { r with adminDown := false }) hr.prev hinv' hnl' hr.up hr.aw, ?_⟩
       exact ⟨hinv', hr.up, hr.sess, rfl, rfl, hr.aw, hr.ann⟩
+  | wait =>
+      have hst : step g .wait = waitAll g := rfl
+      rw [hst] at hinv' hnl' ⊢
+      rw [stepOk_wait]
+      obtain ⟨had, hsess, hsame⟩ := waitAll_fields hr.inv
+      by_cases hup : r.up = true
+      · have hsome : g.sess.isSome = true := by rw [← hr.up]; exact hup
+        rw [hsame hsome, announcedKept_of (hr.ann hsome)]
+        simp only [Bool.not_true, Bool.and_false, Bool.false_eq_true, ↓reduceIte]
+        exact ⟨r, commonE_stutter hr, hr⟩
+      · have hup' : r.up = false := by simpa using hup
+        have hsn : g.sess = none := (up_false_iff hr).mp hup'
+        have hsn' : (waitAll g).sess = none := by rw [hsess, hsn]
+        rw [hup']
+        simp only [Bool.false_and, Bool.false_eq_true, ↓reduceIte]
+        refine ⟨_, commonE_ok hr.prev hinv' hnl' (by rw [hsn']; exact hup') (aw_vacuous hinv' hsn' _), ?_⟩
+        exact rel_down hinv' hsn' hup' (by rw [had]; exact hr.ad)
 
 /-! ## the master theorem -/
 
@@ -889,11 +915,9 @@ theorem checkFrom_ok (evs : List Ev) (g : G) (r : R) (i : Nat) (hr : Rel g r) :
   | nil => simp [runFrom, checkFrom]
   | cons e es ih =>
       simp only [runFrom, checkFrom]
-      by_cases hwf : wf r e = true
-      · obtain ⟨r', hok, hrel⟩ := step_sim hr e hwf
-        simp only [hwf, Bool.not_true, Bool.false_eq_true, ↓reduceIte, hok]
-        exact ih _ _ _ hrel
-      · simp [hwf]
+      obtain ⟨r', hok, hrel⟩ := step_sim hr e
+      simp only [hok]
+      exact ih _ _ _ hrel
 
 /-- The C10 reference checker accepts every run of the model. -/
 theorem check_run_ok (evs : List Ev) : Spec.check evs (run evs) = .ok :=
